@@ -191,6 +191,7 @@ fn walk_value(n: &Node, out: &mut Vec<String>) {
 
 fn any_ambiguous(t: &Tbl) -> bool {
     t.order_ambiguous
+        || !t.floating.is_empty()
         || t.entries.iter().any(|(_, n)| match n {
             Node::Table(s) => any_ambiguous(s),
             Node::Aot(a) => a.iter().any(any_ambiguous),
